@@ -463,6 +463,19 @@ pub fn plan<'a>(ctx: &'a Ctx, rng: &mut Rng, tier: Tier) -> Plan<'a> {
                     cases.push(Case { tcs: t.clone(), cfg: Cfg { bits: (1 << BIT_REP) | extra, min_rep: r, min_len: l } });
                 }
             }
+            // nested periods under every pair of thresholds (the two thresholds are easy to confuse below the top level)
+            let nested = gen::nested_periodic_words();
+            for (k, w) in nested.iter().enumerate() {
+                if quick && k % 2 == 1 {
+                    continue;
+                }
+                for r in 1..=maxt {
+                    for l in 1..=maxt {
+                        let extra = if (k as u32 + r + l) % 5 == 0 { mask(&[BIT_CAP]) } else { 0 };
+                        cases.push(Case { tcs: vec![w.clone()], cfg: Cfg { bits: (1 << BIT_REP) | extra, min_rep: r, min_len: l } });
+                    }
+                }
+            }
             Plan {
                 cases,
                 judge: Box::new(|c, b| {
